@@ -451,3 +451,4 @@ def run(ctx: Context) -> None:
     ctx.isolate(r4_release_discipline)
     ctx.isolate(r5_start_after_release)
     ctx.isolate(r6_start_once)
+    ctx.isolate(c06.r8b_task_is_complete, rule="C02.R7")
